@@ -26,12 +26,28 @@ def filt(repo_src, dst):
     f.note('M2-cify', 'merklehash_goldilocks.hpp', 1, 0, 0, 'MerklehashGoldilocks::getTreeNumElements')
     f.files = {'gen_merkle.c': txt}
     return f
-GROUPS = {'m2': Group('m2', filt, c=['props/C08/contracts.c'], defines=['VF_AVX512'], repo_cpp=[])}
+BRULES = [(r'\(num_cols \+ batch_size - 1\) / batch_size', 'vf_udiv(num_cols + batch_size - 1, batch_size)'), (r'\(nbatches - 1\) \* batch_size', 'UMUL(nbatches - 1, batch_size)'),
+          (r'\bj \* batch_size \* dim\b', 'UMUL(UMUL(j, batch_size), dim)'), (r'\bnn \* dim\b', 'UMUL(nn, dim)')] + RULES
+def genb(f, name):
+    txt = cify.cify(f, P, 'PoseidonGoldilocks::' + name, 'PoseidonGoldilocks_' + name, REN, {0: 'LOOP_LEAF(1)', 1: 'LOOP_BATCH', 2: 'LOOP_LEVELS', 3: 'LOOP_NODES'}, extra_rules=BRULES)
+    for pat in ('vf_udiv(', 'UMUL(nbatches - 1, batch_size)', 'UMUL(UMUL(j, batch_size), dim)', 'UMUL(nn, dim)', 'ROWOFF(i, num_cols, dim)', 'M2-floor'):
+        if pat not in txt:
+            raise extract.ExtractError('M2: %s: expected rewrite %r did not fire' % (name, pat))
+    return txt
+def filt_batch(repo_src, dst):
+    f = extract.Filter(repo_src, dst)
+    f.check_macros()
+    f.files = {'gen_merkle_batch.c': genb(f, 'merkletree_batch_seq') + genb(f, 'merkletree_batch_avx')}
+    return f
+GROUPS = {'m2b': Group('m2b', filt_batch, c=['props/C08/contracts_batch.c'], repo_cpp=[]), 'm2': Group('m2', filt, c=['props/C08/contracts.c'], defines=['VF_AVX512'], repo_cpp=[])}
 CHK = ['--bounds-check', '--pointer-check', '--undefined-shift-check', '--signed-overflow-check', '--div-by-zero-check']
 UNITS = []
 for n in ('merkletree_seq', 'merkletree_avx', 'merkletree_avx512'):
     UNITS.append(Unit(n, 'm2', 'PoseidonGoldilocks_' + n, harness='hl_PoseidonGoldilocks_' + n, light=True, loops='contract', checks=CHK, timeout=900,
                       functions=['PoseidonGoldilocks::%s (src/%s) [C-ified, three loop contracts, ghost monitors for linear_hash / hash]' % (n, P)]))
+for n in ('merkletree_batch_seq', 'merkletree_batch_avx'):
+    UNITS.append(Unit(n, 'm2b', 'PoseidonGoldilocks_' + n, harness='hl_PoseidonGoldilocks_' + n, light=True, loops='contract', checks=CHK, timeout=900,
+                      functions=['PoseidonGoldilocks::%s (src/%s) [C-ified, four loop contracts, ghost monitors; batch division axiomatised]' % (n, P)]))
 UNITS.append(Unit('getTreeNumElements', 'm2', 'MerklehashGoldilocks_getTreeNumElements', harness='hl_getTreeNumElements', light=True, checks=CHK,
                   functions=['MerklehashGoldilocks::getTreeNumElements (src/merklehash_goldilocks.hpp)']))
 TRUSTED_BASE = ['M2 C-ification rules incl. M2-mul (size products uninterpreted) and M2-floor (floor of an integer-valued double)', 'row digest and node hash are abstracted by ghost monitors (C07 / C06 cover them); the tree is write-once memory TREE(offset)',
@@ -39,8 +55,8 @@ TRUSTED_BASE = ['M2 C-ification rules incl. M2-mul (size products uninterpreted)
 ASSUMPTIONS = ['num_rows a power of two, 1 <= num_rows <= 2^32', 'size products num_cols*dim, i*num_cols*dim do not overflow (not examined)']
 EXPLANATION = 'All heights, column counts and dimensions: the three loops of each builder are closed by inductive invariants over the monitor state.'
 MANIFEST_ENTRY = dict(category='proof', technique='CBMC loop contracts on the C-ified builders + ghost monitors of the hashing callees + write-once abstract tree memory',
-    text='merkletree_seq / merkletree_avx / merkletree_avx512: every row digest lands in its leaf slot, every node is the hash of its two adjacent children with zero capacity (closed form 2*o - 8*rows), the buffer ends exactly at getTreeNumElements(rows); for every power-of-two row count up to 2^32 and all column counts / dims.',
-    note='Batched builders are not under contract yet (listed in evidence); size products are uninterpreted; thread-count independence: C12.')
+    text='merkletree_seq / _avx / _avx512 and the batched builders merkletree_batch_seq / _batch_avx (leaf = digest of the digests of consecutive column batches, any batch size): every row digest lands in its leaf slot, every node is the hash of its two adjacent children with zero capacity (closed form 2*o - 8*rows), the buffer ends exactly at getTreeNumElements(rows); for every power-of-two row count up to 2^32 and all column counts / dims.',
+    note='merkletree_batch_avx512 is not under contract (listed in evidence); size products and the batch division are uninterpreted / axiomatised; thread-count independence: C12.')
 # the row digest this chain stands on: linear_hash* under contract in C07 (run here too)
 from vf.driver import import_units
 _g, _u = import_units('C07', lambda n: n in ('linear_hash_seq', 'linear_hash'))
